@@ -296,10 +296,12 @@ func (ce *vConnEngine) clientState(cli GenericClient) string {
 	}
 	return "unknown"
 }
-func (ce *vConnEngine) OnConnectError(err error, d time.Duration) { ce.ev.add("onconnecterror") }
+func (ce *vConnEngine) OnConnectError(err error, d time.Duration) {
+	ce.ev.add("onconnecterror/d=%d/t=%d", int64(d), ce.ms())
+}
 func (ce *vConnEngine) OnDoCommandError(err error, d time.Duration) {
 	if e, ok := err.(vRetriableErr); ok {
-		ce.ev.add("ondocommanderror/%s", e.id)
+		ce.ev.add("ondocommanderror/%s/d=%d/t=%d", e.id, int64(d), ce.ms())
 	} else {
 		ce.ev.add("ondocommanderror/?")
 	}
@@ -316,9 +318,18 @@ func (ce *vConnEngine) ShouldRetryOnConnect(err error) bool {
 }
 func (ce *vConnEngine) HandlerName() string { return "verif" }
 
-type vZeroBackoff struct{ n int }
+type vZeroBackoff struct {
+	n int
+	d time.Duration
+}
 
-func (b *vZeroBackoff) NextBackOff() time.Duration { b.n++; return time.Millisecond }
+func (b *vZeroBackoff) NextBackOff() time.Duration {
+	b.n++
+	if b.d > 0 {
+		return b.d
+	}
+	return time.Millisecond
+}
 func (b *vZeroBackoff) Reset()                     { b.n = 0 }
 
 func vErrClassConn(err error) string {
@@ -378,8 +389,8 @@ func vRunConn(c vCase) []string {
 	atoi := func(k string) int { n, _ := strconv.Atoi(c.get(k)); return n }
 	opts := ConnectionOpts{
 		DontConnectNow:      c.get("lazy") == "1",
-		ReconnectBackoff:    func() backoff.BackOff { return &vZeroBackoff{} },
-		CommandBackoff:      func() backoff.BackOff { return &vZeroBackoff{} },
+		ReconnectBackoff:    func() backoff.BackOff { return &vZeroBackoff{d: time.Duration(atoi("backoff")) * time.Millisecond} },
+		CommandBackoff:      func() backoff.BackOff { return &vZeroBackoff{d: time.Duration(atoi("cmdbackoff")) * time.Millisecond} },
 		ForceInitialBackoff: c.get("forcebackoff") == "1",
 		Protocols:           []Protocol{{Name: "vp", Methods: map[string]ServeHandlerDescription{}}},
 	}
@@ -422,7 +433,7 @@ func vRunConn(c vCase) []string {
 					if ce.IsConnected() {
 						conn = "1"
 					}
-					ce.ev.add("exec/%s/%d/%s/client=%v/connected=%s/cstate=%s", id, k, out, cli != nil, conn, ce.clientState(cli))
+					ce.ev.add("exec/%s/%d/%s/client=%v/connected=%s/cstate=%s/t=%d", id, k, out, cli != nil, conn, ce.clientState(cli), ce.ms())
 					k++
 					switch out {
 					case "eof":
